@@ -1,2 +1,128 @@
--- stub: driver for C18 not written yet
-def main : IO Unit := pure ()
+import CMacVerif.Model.Verner
+import CMacVerif.Model.Recomb
+import CMacVerif.Model.Locate
+import CMacVerif.Inst.Float
+import CMacVerif.Util.Bits
+/-! Line-protocol driver for C18: the `Float` instantiation of the models (core Lean only).
+One answer line per op line; ` #tag` = branch taken (stripped before comparison). -/
+open CMacVerif CMacVerif.Util CMacVerif.Verner CMacVerif.Gen.Verner CMacVerif.Locate
+
+structure St where
+  tabs : Array (String × Array Float) := #[]
+  grids : Array (String × Array (Array Float)) := #[]
+
+def St.tab (s : St) (name : String) : Array Float :=
+  match s.tabs.find? (·.1 == name) with
+  | some (_, a) => a
+  | none => #[]
+
+def St.grid (s : St) (name : String) : Array (Array Float) :=
+  match s.grids.find? (·.1 == name) with
+  | some (_, a) => a
+  | none => #[]
+
+def St.setTab (s : St) (name : String) (a : Array Float) : St :=
+  { s with tabs := (s.tabs.filter (·.1 != name)).push (name, a) }
+
+def St.setGrid (s : St) (name : String) (i : Nat) (a : Array Float) : St :=
+  let g := s.grid name
+  let g := if i < g.size then g.set! i a else (g ++ Array.replicate (i - g.size) #[]).push a
+  { s with grids := (s.grids.filter (·.1 != name)).push (name, g) }
+
+def fn (a : Array Float) : Nat → Float := fun i => a.getD i 0.0
+
+def fl (w : String) : Float := fOfBits (nat! w)
+
+def showFs (l : List Float) : String := " ".intercalate (l.map showF)
+
+def ionOf (w : String) : Option Ion := ionOfIndex (nat! w)
+
+/-- position tag of a located index -/
+def locTag (x : Float) (a : Array Float) (n : Nat) : String :=
+  let r := locate x (fn a) n
+  let jl := locateLoop x (fn a) 0 n
+  if jl != r then "dec" else if r == 0 then (if fn a 0 < x then "first" else "atOrBelowFirst") else if r + 2 == n then "last" else "mid"
+
+def step (s : St) : List String → St × String
+  | ["rowA", z, n, sh] =>
+    let p := prepA (dataA (α := Float) (nat! z) (nat! n) (nat! sh))
+    (s, "rowA " ++ showFs [p.Plconst, p.E_th, p.E_0_inv, p.sigma_0, p.one_over_y_a, p.P, p.y_w_squared])
+  | ["rowB", z, n] =>
+    let p := prepB (dataB (α := Float) (nat! z) (nat! n))
+    (s, "rowB " ++ showFs [p.E_0_inv, p.sigma_0, p.one_over_y_a, p.P, p.y_w_squared, p.y_0, p.y_1_squared])
+  | ["rowC", n] => (s, s!"rowC {(dataC (nat! n)).1} {(dataC (nat! n)).2}")
+  | ["rowR", z, n] =>
+    let r := recRow (α := Float) (nat! z) (nat! n)
+    (s, "rowR " ++ showFs [r.rrec0, r.rrec1, r.rnew0, r.rnew1, invNZ r.rnew2, invNZ r.rnew3])
+  | ["rowF", n] =>
+    let f := feRow (α := Float) (nat! n)
+    (s, "rowF " ++ showFs [f.fe0, f.fe1, f.fe2])
+  | ["xsv", z, n, sh, e] =>
+    let v := crossSectionVerner (nat! z) (nat! n) (nat! sh) (fl e)
+    (s, s!"xsv {showF v} #{(xsBranch (nat! z) (nat! n) (nat! sh) (fl e)).tag}")
+  | ["xs", ion, e] =>
+    match ionOf ion with
+    | some i =>
+      let tags := (ionShells i).map fun sh => (xsBranch sh.1 sh.2.1 sh.2.2 (fl e)).tag
+      (s, s!"xs {showF (crossSection i (fl e))} #{"+".intercalate tags}")
+    | none => (s, "xs unknown-ion")
+  | ["recv", z, n, t] =>
+    (s, s!"recv {showF (recVerner (nat! z) (nat! n) (fl t))} #{(recBranch (nat! z) (nat! n)).tag}")
+  | ["rec", ion, t] =>
+    match ionOf ion with
+    | some i =>
+      let raw := rateCgs i (fl t) * 1.0e-6
+      let tag := if (0.0 : Float) < raw then "pos" else "clamped0"
+      (s, s!"rec {showF (recombinationRate i (fl t))} #{repr i}-{tag}")
+    | none => (s, "rec unknown-ion")
+  | ["ctrh", ion, t] =>
+    match ionOf ion with
+    | some .H_n => (s, "ctrh error")
+    | some i => (s, s!"ctrh {showF (ctRecH i (fl t))} #ctrh-{repr i}")
+    | none => (s, "ctrh unknown-ion")
+  | ["ctih", ion, t] =>
+    match ionOf ion with
+    | some .H_n => (s, "ctih error")
+    | some i => (s, s!"ctih {showF (ctIonH i (fl t))} #ctih-{repr i}")
+    | none => (s, "ctih unknown-ion")
+  | ["ctrhe", ion, t] =>
+    match ionOf ion with
+    | some .He_n => (s, "ctrhe error")
+    | some i => (s, s!"ctrhe {showF (ctRecHe i (fl t))} #ctrhe-{repr i}")
+    | none => (s, "ctrhe unknown-ion")
+  | "loc" :: n :: x :: rest =>
+    let a := (rest.map fl).toArray
+    if a.size != nat! n ∨ a.size < 2 then (s, "loc bad-length") else
+    (s, s!"loc {locate (fl x) (fn a) a.size} #loc-{locTag (fl x) a a.size}")
+  | "mk" :: kind :: _ => ({ s with tabs := s.tabs.filter (fun t => !(t.1.startsWith (kind ++ "."))),
+                                    grids := s.grids.filter (fun t => !(t.1.startsWith (kind ++ "."))) }, s!"mk {kind}")
+  | "tab" :: name :: n :: rest =>
+    let a := (rest.map fl).toArray
+    if a.size != nat! n then (s, s!"tab {name} bad-length") else (s.setTab name a, s!"tab {name} {a.size}")
+  | "tab2" :: name :: i :: n :: rest =>
+    let a := (rest.map fl).toArray
+    if a.size != nat! n then (s, s!"tab2 {name} bad-length") else (s.setGrid name (nat! i) a, s!"tab2 {name} {i} {a.size}")
+  | ["smp", "planck", x] =>
+    let cdf := s.tab "planck.cdf"
+    let v := planckSample (fl x) (fn cdf) (fn (s.tab "planck.logcdf")) (fn (s.tab "planck.logfreq")) cdf.size
+    (s, s!"smp {showF v} #planck-{locTag (fl x) cdf cdf.size}")
+  | ["smp", "uniform", x] => (s, s!"smp {showF (uniformSample (fl x))} #uniform")
+  | ["smp", "mono", x, f] => (s, s!"smp {showF (monoSample (fl f) (fl x))} #mono")
+  | ["smp", kind, x] =>
+    let cdf := s.tab (kind ++ ".cdf")
+    if cdf.size < 2 then (s, "smp no-table") else
+    let v := linearSample (fl x) (fn (s.tab (kind ++ ".freq"))) (fn cdf) cdf.size
+    (s, s!"smp {showF v} #{kind}-{locTag (fl x) cdf cdf.size}")
+  | ["smp", kind, x, t] =>
+    let ttab := s.tab (kind ++ ".T")
+    let freq := s.tab (kind ++ ".freq")
+    let g := s.grid (kind ++ ".cdf")
+    if ttab.size < 2 ∨ g.size != ttab.size then (s, "smp no-table") else
+    let v := lymanSample (fl x) (fl t) (fn ttab) ttab.size (fn freq) (fun i => fn (g.getD i #[])) freq.size
+    let tt := if fl t < fn ttab 0 then "Tbelow" else if fn ttab (ttab.size - 1) < fl t then "Tabove" else "Tin"
+    (s, s!"smp {showF v} #{kind}-{tt}-{locTag (clampT (fl t) (fn ttab) ttab.size) ttab ttab.size}")
+  | ["thr", ion, _] => (s, s!"thr {ion}")
+  | "grid" :: _ => (s, "grid")
+  | _ => (s, "bad-op")
+
+def main : IO Unit := runDriver step ({} : St)
